@@ -291,6 +291,20 @@ Theorem C01_cacheable_spec : forall v, cacheable v = cs_committed v || cs_rolled
 Proof. exact cacheable_spec. Qed.
 Print Assumptions C01_cacheable_spec.
 
+(* the loop around it (getTxnStatusFromLock, driven by `sistatus` mode L), for ALL scripts of store answers: only cacheable
+   statuses are memoised; rollback_if_not_exist is requested only for a lock whose TTL has expired (C04: "CheckTxnStatus with
+   rollback_if_not_exist only if the lock's ttl elapsed"); current ts = max exactly for the TTL-0 protocol; a final result is
+   the memoised one; a non-final result (alive, pushed, do-nothing, the synthetic "alive with the lock's own TTL" for a live
+   pessimistic lock whose primary is not found) leaves the cache untouched *)
+Theorem C01_status_from_lock : forall cache l script, Forall (fun e => cacheable (snd e) = true) cache ->
+  let '(r, c', rqs, lft) := status_from_lock cache l script in
+  Forall (fun e => cacheable (snd e) = true) c' /\
+  (forall rq, In rq rqs -> (rq_rine rq = true -> li_expired l = true) /\ rq_cur_max rq = (li_ttl l =? 0) /\ rq_pess rq = li_pess l) /\
+  (forall v, r = SrStatus v -> cacheable v = true -> memo_get c' (li_txn l) = Some v) /\
+  (forall v, r = SrStatus v -> cacheable v = false -> c' = cache).
+Proof. exact status_from_lock_spec. Qed.
+Print Assumptions C01_status_from_lock.
+
 (* ------------------------------------------------------------------ non-vacuity *)
 Definition T (r : N) : N := r * 262144.
 Definition ex_cmds : list cmd :=
@@ -441,6 +455,16 @@ Example ex_pushed_bad :
   prules 1 (T 4) (run (cmds_of ex_push_A)) [TReq (Commit [2] (T 4) (T 4 + 1))] = false
   /\ read_at (run (cmds_of ex_push_A ++ [Commit [2] (T 4) (T 4 + 1)])) 2 (T 5) = Some 44.
 Proof. vm_compute. split; reflexivity. Qed.
+(* getTxnStatusFromLock: an expired prewrite lock whose primary is not found is asked again with rollback_if_not_exist and
+   the rollback answer is memoised; a live pessimistic lock is reported alive with its own TTL after one request *)
+Example ex_from_lock :
+  status_from_lock [] (mkLi 7 1 10000 false) [AnsNotFound; AnsStatus (0, 0, ALockNotExistRollback)]
+  = (SrStatus (0, 0, ALockNotExistRollback), [(7, (0, 0, ALockNotExistRollback))], [mkReq false false false; mkReq true false false], [])
+  /\ status_from_lock [] (mkLi 7 3600000 10000 true) [AnsNotFound; AnsStatus (0, 9, ANoAction)]
+  = (SrStatus (3600000, 0, ANoAction), [], [mkReq false false true], [AnsStatus (0, 9, ANoAction)])
+  /\ status_from_lock [] (mkLi 7 0 10000 false) [AnsStatus (0, 0, ATTLExpireRollback)]
+  = (SrStatus (0, 0, ATTLExpireRollback), [(7, (0, 0, ATTLExpireRollback))], [mkReq false true false], []).
+Proof. vm_compute. repeat split. Qed.
 (* resolver cache: a committed answer is final ... *)
 Example ex_status_final :
   let c := CheckTxnStatus 1 (T 1) (T 5) (T 5) true false in
